@@ -20,6 +20,10 @@ Case formats (JSON-able, sufficient for `replay`):
            before area-side operation number slots[i] (slots[i] == number of operations: after all).
            Genes carry CORE gene functions according to `_annotation` (a fixed function of their
            coordinates), so that protocluster definition genes can be checked.
+
+The known-finding classes C08-F1/F2/F4 are delimited with `pinned_lookup`, a model of the lookup
+as it is in /repo now (i.e. including the repair of C08-F3, after which a with_overlapping lookup
+of a multi-part location is no longer filtered by containment).
 """
 from __future__ import annotations
 
